@@ -4,6 +4,7 @@
 use std::io::{self, BufRead, Write};
 
 mod enc;
+mod gen_builder;
 mod sub;
 mod tree;
 
